@@ -1,7 +1,7 @@
 SPECIFICATION MCSpec
 CONSTANTS AggReplace = FALSE
  AggKeepFirst = FALSE
- MCKinds = {"pro","agg","misc"}
+ MCKinds = {"pro","agg"}
  MaxStores = 3
  MaxQ = 2
  MaxExp = 2
